@@ -11,6 +11,7 @@
 -/
 import Bp7.Props.C01
 import Bp7.Spec.Crc
+import Bp7.Lemmas.CrcTable
 namespace Bp7.C04
 open Bp7
 
@@ -121,6 +122,35 @@ theorem crcValid_decode_encode (b : Bundle) (h : b.wf = true) :
   refine ⟨checkCrc_updated_primary _ hpk, ?_⟩
   rintro c ⟨c0, hc0, rfl⟩
   exact checkCrc_updated_canon c0 (hck c0 hc0)
+
+/-- **C04 (the `crc` crate's algorithm).** What `crc::Crc::<u16>::new(&CRC_16_IBM_SDLC).checksum`
+    / `Crc::<u32>::new(&CRC_32_ISCSI).checksum` compute — modelled as the crate computes it: a
+    256-entry table generated from the reversed catalogue polynomial (table.rs / util.rs) and one
+    lookup per byte (`update_table`, L = 1, reflect branch) — is the bit-serial `crc16` / `crc32c`
+    the theorems above are stated with, for every input. -/
+theorem crate_x25_is_crc16 (d : Bytes) : CrcCrate.x25 d = crc16 d := CrcCrate.x25_eq d
+theorem crate_castagnoli_is_crc32c (d : Bytes) : CrcCrate.castagnoli d = crc32c d := CrcCrate.castagnoli_eq d
+
+/-- hence the CRC stored by encoding, stated with the crate's own algorithm -/
+theorem primary_crc_is_crate_crc (p : Primary) :
+    (p.crc.toCode = 1 → p.updateCrc.crc = be16 (CrcCrate.x25 (encPrimary (Primary.zeroed p)))) ∧
+    (p.crc.toCode = 2 → p.updateCrc.crc = be32 (CrcCrate.castagnoli (encPrimary (Primary.zeroed p)))) := by
+  rw [crate_x25_is_crc16, crate_castagnoli_is_crc32c]
+  exact ⟨(primary_crc_is_crc_of_zeroed p).1, (primary_crc_is_crc_of_zeroed p).2.1⟩
+
+theorem canon_crc_is_crate_crc (c : Canon) :
+    (c.crc.toCode = 1 → c.updateCrc.crc = be16 (CrcCrate.x25 (encCanon (Canon.zeroed c)))) ∧
+    (c.crc.toCode = 2 → c.updateCrc.crc = be32 (CrcCrate.castagnoli (encCanon (Canon.zeroed c)))) := by
+  rw [crate_x25_is_crc16, crate_castagnoli_is_crc32c]
+  exact ⟨(canon_crc_is_crc_of_zeroed c).1, (canon_crc_is_crc_of_zeroed c).2.1⟩
+
+/-- the table index never leaves the table (the `getD` default of the model is dead code) -/
+theorem crate_table_index_in_range16 (crc : BitVec 16) (b : UInt8) :
+    CrcCrate.tableIndex crc b < (CrcCrate.table 0x1021#16).size := by
+  simpa [CrcCrate.table] using CrcCrate.tableIndex_lt (by decide) crc b
+theorem crate_table_index_in_range32 (crc : BitVec 32) (b : UInt8) :
+    CrcCrate.tableIndex crc b < (CrcCrate.table 0x1EDC6F41#32).size := by
+  simpa [CrcCrate.table] using CrcCrate.tableIndex_lt (by decide) crc b
 
 /-! catalogue pinning of the reference and of the model (same check values) -/
 theorem model_crc16_check : (crc16 Spec.check123456789).toNat = 0x906E := by decide +kernel
